@@ -183,6 +183,8 @@ def genotype(
     if kind in ["vcf", "pscan"]:
         log.warn("WARNING: Using VCF file. Copy-number calling is not available.")
         profile = Profile("user_provided", cn_solution=["1", "1"], **params)
+        if profile.male and gene.chr in ["X", "Y"]:
+            profile.cn_solution = ["1"]
         sample = load_sample(gene, profile, sam_path, debug=debug)
     else:
         if cn_solution:
